@@ -57,8 +57,26 @@ pub struct CliOp {
     pub fmt_check: bool,
     #[serde(default)]
     pub fmt_tail: u8,
+    /// authorize (kind 0) only: first run `cedar link`, which reads the policies and the links
+    /// file as stored and appends to the links file; the authorization then reads what it left
+    #[serde(default)]
+    pub link_first: Option<LinkStep>,
+    /// text form: put `@id("<id>")` before each policy and template, which the CLI turns into
+    /// the policy id (otherwise they are policy0, policy1, .. and links can only name those)
+    #[serde(default)]
+    pub annotate_ids: bool,
     pub faults: Vec<FileFault>,
     pub hash_seed: u64,
+}
+
+#[derive(Clone, Debug, Serialize, Deserialize, PartialEq)]
+pub struct LinkStep {
+    pub tid: String,
+    pub new_id: String,
+    pub p: Option<String>,
+    pub r: Option<String>,
+    /// pass `--template-linked` even when the policy set has no links yet (the file is created)
+    pub give_links_file: bool,
 }
 
 static DIR_NO: AtomicU64 = AtomicU64::new(0);
@@ -208,7 +226,7 @@ pub fn do_cli(step: usize, op: &CliOp, ps: &PsDoc, store: &[Value], schema_text:
     out.counts.push(("evaluations", 1));
     out.counts.push(("cli_spawns", 1));
     // ---- "write": the documents as the user stored them
-    let mut policies_text = ps.statics.iter().chain(ps.templates.iter()).map(|(_, t)| t.clone()).collect::<Vec<_>>().join("\n");
+    let mut policies_text = ps.statics.iter().chain(ps.templates.iter()).map(|(id, t)| if op.annotate_ids { format!("@id({})\n{t}", serde_json::to_string(id).unwrap_or_default()) } else { t.clone() }).collect::<Vec<_>>().join("\n");
     let kind = op.kind % 7;
     let fmt_cfg = Config { line_width: if op.fmt_width == 0 { 80 } else { op.fmt_width as usize }, indent_width: op.fmt_indent as isize };
     if kind == 6 && op.fmt_tail % 4 != 3 {
@@ -266,7 +284,7 @@ pub fn do_cli(step: usize, op: &CliOp, ps: &PsDoc, store: &[Value], schema_text:
             json!({"template_id": l.tid, "link_id": l.id, "args": args})
         })
         .collect();
-    let with_links = !ps.links.is_empty();
+    let mut with_links = !ps.links.is_empty();
     let mut files: [Option<Vec<u8>>; 6] = [
         Some(policies_text.into_bytes()),
         if with_links { Some(serde_json::to_vec(&links_json).unwrap_or_default()) } else { None },
@@ -304,6 +322,86 @@ pub fn do_cli(step: usize, op: &CliOp, ps: &PsDoc, store: &[Value], schema_text:
     }
     let path = |i: usize| format!("{dir}/{}", names[i]);
     let json_schema = schema_text.as_ref().is_some_and(|(_, j)| *j);
+    // ---- optional first step: `cedar link` (read-modify-write of the links file)
+    if let (0, Some(ls)) = (kind, &op.link_first) {
+        let use_file = with_links || ls.give_links_file;
+        let mut args = serde_json::Map::new();
+        if let Some(p) = &ls.p {
+            args.insert("?principal".into(), json!(p));
+        }
+        if let Some(r) = &ls.r {
+            args.insert("?resource".into(), json!(r));
+        }
+        let mut lc = std::process::Command::new(bin);
+        lc.env_clear().env("PATH", "/usr/bin:/bin").env("CEDAR_SIM_HASH_SEED", op.hash_seed.to_string()).stdin(std::process::Stdio::null());
+        if !shim.is_empty() {
+            lc.env("LD_PRELOAD", shim);
+        }
+        lc.arg("link").arg("--policies").arg(path(0));
+        if pjson {
+            lc.arg("--policy-format").arg("json");
+        }
+        if use_file {
+            lc.arg("--template-linked").arg(path(1));
+        }
+        lc.arg("--template-id").arg(&ls.tid).arg("--new-id").arg(&ls.new_id).arg("--arguments").arg(Value::Object(args).to_string());
+        out.counts.push(("cli_spawns", 1));
+        out.counts.push(("cli_link_steps", 1));
+        let lo = match lc.output() {
+            Ok(o) => o,
+            Err(e) => {
+                let _ = std::fs::remove_dir_all(&dir);
+                out.violation = viol("harness_io", "cannot run the cedar binary", step, "spawn".into(), e.to_string());
+                return out;
+            }
+        };
+        // reference: the API on the bytes as stored (a missing links file counts as no links)
+        let want: Result<BTreeSet<String>, String> = (|| {
+            let have_file = use_file && files[1].is_some();
+            let mut set = api_policies(&files, have_file, pjson)?;
+            let mut vals = HashMap::new();
+            if let Some(p) = &ls.p {
+                vals.insert(SlotId::principal(), EntityUid::from_str(p).map_err(|e| e.to_string())?);
+            }
+            if let Some(r) = &ls.r {
+                vals.insert(SlotId::resource(), EntityUid::from_str(r).map_err(|e| e.to_string())?);
+            }
+            set.link(PolicyId::new(&ls.tid), PolicyId::new(&ls.new_id), vals).map_err(|e| e.to_string())?;
+            Ok(set.policies().map(|p| p.id().to_string()).collect())
+        })();
+        let lcode = lo.status.code();
+        if std::env::var("VERIF_DEBUG_LINK").is_ok() {
+            eprintln!("LINKDBG {:?} tid={} new={} p={:?} r={:?}", want.as_ref().err().map(|e| e.chars().take(90).collect::<String>()), ls.tid, ls.new_id, ls.p, ls.r);
+        }
+        out.events.push(format!("{step} cli link -> exit {lcode:?}"));
+        if lcode.is_none() {
+            let _ = std::fs::remove_dir_all(&dir);
+            out.violation = viol("cli_crashed", "cli link died by signal", step, "an exit status".into(), format!("{:?} stderr: {}", lo.status, String::from_utf8_lossy(&lo.stderr).chars().take(300).collect::<String>()));
+            return out;
+        }
+        let wantc = if want.is_ok() { 0 } else { 1 };
+        if lcode != Some(wantc) {
+            let _ = std::fs::remove_dir_all(&dir);
+            out.violation = viol("cli_exit_status", "cli link", step, format!("exit {wantc} (API link: {want:?})"), format!("exit {lcode:?}, stdout {:?}", String::from_utf8_lossy(&lo.stdout).chars().take(200).collect::<String>()));
+            return out;
+        }
+        // what the command left on the simulated disk is what the next command reads
+        if use_file {
+            files[1] = std::fs::read(path(1)).ok();
+            with_links = true;
+            if let Ok(ids) = &want {
+                out.counts.push(("reach.cli_link_stored", 1));
+                let stored: Result<BTreeSet<String>, String> = api_policies(&files, true, pjson).map(|set| set.policies().map(|p| p.id().to_string()).collect());
+                if stored.as_ref() != Ok(ids) {
+                    let _ = std::fs::remove_dir_all(&dir);
+                    out.violation = viol("cli_link_not_stored", "cli link", step, format!("policies, links file and new link load to the policy ids {ids:?}"), format!("{stored:?}"));
+                    return out;
+                }
+            } else {
+                out.counts.push(("reach.cli_link_refused", 1));
+            }
+        }
+    }
     let mut cmd = std::process::Command::new(bin);
     cmd.env_clear().env("PATH", "/usr/bin:/bin").env("CEDAR_SIM_HASH_SEED", op.hash_seed.to_string()).stdin(std::process::Stdio::null());
     if !shim.is_empty() {
